@@ -9,17 +9,21 @@
   larger ones, advances driven by MoveNext and by Send, no drift of the starting depth across 40 advances -
   and measures the growth per non-yielding iteration on six loop shapes (must be 0.00).
 
-  * `C17_trampoline` (= `stepDS_trampoline`): PROVED for every loop, body, continuation, store: a body that
-    completes (Normal / Continue) while its loop frame is registered continues at the depth of that frame,
-    whatever depth the body itself reached.
-  * `C17_depth_constant`: PROVED for every iteration count n and every m ≤ n: the m-th evaluation of the head
-    of a loop that never yields runs at the depth of the first one.
+  * `C17_iteration_returns_to_frame` (= `iteration_returns_to_frame`, with `frame_kept`, `above_step`): PROVED for
+    EVERY loop, body, continuation, store and depth state - if the body, however long it runs and whatever it
+    is (nested loops, combines, thunks that build new terms), completes with Normal / Continue before the
+    advance ends, then the machine is back at the head of the loop AT THE DEPTH OF THE LOOP FRAME with the frame
+    still registered: the hypotheses of the next iteration hold again, so the depth at the head of a loop is
+    the same for every iteration between two yields, for any number of iterations.  (Stack discipline: while
+    a term is evaluated the continuation it was given stays underneath, `above_step`; evaluating it never
+    touches frames registered below that continuation, `stepDS_below`.)
+  * `C17_trampoline`: the single step that does it; `C17_erasure`: the depth state is ghost state.
+  * `C17_depth_constant`: the unbounded witness family, for every n and m ≤ n, computed through the model.
   * `C17_pinned_depth_grows`: on the PINNED tree the property was false (finding D5, repaired by 5f77a8a):
     there every transition nests, and a loop of n non-yielding iterations makes 4·n + 2 transitions in one
     advance, for every n (measured on the real runtime then: 3 to 8 frames per iteration, now 0).
-  Partial: the general statement "for every body that completes without yielding the loop frame stays
-  registered until the body's continuation is applied" (stack discipline of the machine) is not proved;
-  byte sizes of frames and the 1 GB limit are not modelled.
+  Partial: byte sizes of frames and the 1 GB limit are not modelled (the statement is about the number of
+  frames); that the Go code realises this depth discipline is observed by K2 (exact profiles), not proved.
 -/
 import GoCo.Runtime.Depth
 set_option autoImplicit false
@@ -73,6 +77,20 @@ theorem C17_depth_constant (n m : Nat) (h : m ≤ n) :
   obtain ⟨sk, ds', h2, h3, _⟩ := spin_head_depth n (n + 1) m 0 (n + 1) true (({ d := 1 } : DS).enter 0 2)
     (by omega) (by omega) (get_enter _ 0 2)
   rw [h2, h3]; rfl
+
+/-- the property in general: one iteration of any loop, with any body that completes without ending the
+    advance, returns to the loop head in the loop frame -/
+theorem C17_iteration_returns_to_frame {σ V P : Type} [Inhabited V] (N : Nat) (n : Nat) (c : Option (σ → CondR P × σ))
+    (p : Option (σ → Option P × σ)) (body : Term σ V P) (k : Cont σ V P) (st : σ) (ds : DS) (D : Nat)
+    (hD : ds.get k.loops = some D) (m : Nat) (s : Sig) (v : V) (st' : σ)
+    (hpath : ∀ j, j < m → (run N j (.eval body (.loopK n c p body k) st)).final = false ∧
+      ∀ s v st1, run N j (.eval body (.loopK n c p body k) st) ≠ .apply (.loopK n c p body k) s v st1)
+    (hret : run N m (.eval body (.loopK n c p body k) st) = .apply (.loopK n c p body k) s v st')
+    (hs : s = .normal ∨ s = .cont) :
+    (runD N (m + 1) (.eval body (.loopK n c p body k) st, ds)).1 = .loop n c p body k false st' ∧
+    (runD N (m + 1) (.eval body (.loopK n c p body k) st, ds)).2.d = D ∧
+    (runD N (m + 1) (.eval body (.loopK n c p body k) st, ds)).2.get k.loops = some D :=
+  iteration_returns_to_frame N n c p body k st ds D hD m s v st' hpath hret hs
 
 theorem C17_erasure {σ V P : Type} [Inhabited V] (N n : Nat) (x : Cfg σ V P × DS) : (runD N n x).1 = run N n x.1 :=
   runD_erasure N n x
